@@ -19,15 +19,20 @@ func bsub(a *big.Int, b int64) *big.Int { return new(big.Int).Sub(a, big.NewInt(
 func bneg(a *big.Int) *big.Int          { return new(big.Int).Neg(a) }
 
 // the concretisation table of UcfgConvert's named boundaries (ascending)
-var convBaseNames = []string{"i64min_fprev", "i64min", "dmin", "i32min", "i16min", "i8min", "zero", "i8max", "u8max",
-	"i16max", "u16max", "i32max", "u32max", "dmax", "two53", "i64max_fprev", "i64max", "u64max_fprev", "u64max"}
+var convBaseNames = []string{"f32min_fprev", "f32min", "i64min_fprev", "i64min", "dmin", "i32min", "i16min", "i8min", "zero", "i8max", "u8max",
+	"i16max", "u16max", "i32max", "u32max", "dmax", "two53", "i64max_fprev", "i64max", "u64max_fprev", "u64max", "f32max", "f32max_fnext"}
 var convBases = map[string]*big.Int{
 	"i64min_fprev": bsub(bneg(pow2(63)), 2048), "i64min": bneg(pow2(63)), "dmin": big.NewInt(-9223372036), "i32min": bneg(pow2(31)),
 	"i16min": bneg(pow2(15)), "i8min": big.NewInt(-128), "zero": big.NewInt(0), "i8max": big.NewInt(127), "u8max": big.NewInt(255),
 	"i16max": bsub(pow2(15), 1), "u16max": bsub(pow2(16), 1), "i32max": bsub(pow2(31), 1), "u32max": bsub(pow2(32), 1),
 	"dmax": big.NewInt(9223372036), "two53": pow2(53), "i64max_fprev": bsub(pow2(63), 1024), "i64max": bsub(pow2(63), 1),
 	"u64max_fprev": bsub(pow2(64), 2048), "u64max": bsub(pow2(64), 1),
+	// MaxFloat32 = 2^128 - 2^104; the next float64 above it is 2^75 further
+	"f32max": bsub2(pow2(128), pow2(104)), "f32max_fnext": new(big.Int).Add(bsub2(pow2(128), pow2(104)), pow2(75)),
+	"f32min": bneg(bsub2(pow2(128), pow2(104))), "f32min_fprev": bneg(new(big.Int).Add(bsub2(pow2(128), pow2(104)), pow2(75))),
 }
+
+func bsub2(a, b *big.Int) *big.Int { return new(big.Int).Sub(a, b) }
 
 // checkConvTable verifies the table against the Go definitions it stands for.
 func checkConvTable() string {
@@ -48,6 +53,14 @@ func checkConvTable() string {
 	}
 	if f := math.Nextafter(math.Pow(2, 63), 0); new(big.Float).SetFloat64(f).Cmp(new(big.Float).SetInt(convBases["i64max_fprev"])) != 0 {
 		return "i64max_fprev is not the float64 below 2^63"
+	}
+	if new(big.Float).SetFloat64(math.MaxFloat32).Cmp(new(big.Float).SetInt(convBases["f32max"])) != 0 ||
+		new(big.Float).SetFloat64(-math.MaxFloat32).Cmp(new(big.Float).SetInt(convBases["f32min"])) != 0 {
+		return "f32max / f32min are not +-MaxFloat32"
+	}
+	if f := math.Nextafter(math.MaxFloat32, math.Inf(1)); new(big.Float).SetFloat64(f).Cmp(new(big.Float).SetInt(convBases["f32max_fnext"])) != 0 ||
+		new(big.Float).SetFloat64(-f).Cmp(new(big.Float).SetInt(convBases["f32min_fprev"])) != 0 {
+		return "f32max_fnext / f32min_fprev are not the float64 neighbours of +-MaxFloat32"
 	}
 	if f := math.Nextafter(math.Pow(2, 64), 0); new(big.Float).SetFloat64(f).Cmp(new(big.Float).SetInt(convBases["u64max_fprev"])) != 0 {
 		return "u64max_fprev is not the float64 below 2^64"
